@@ -203,6 +203,9 @@ def check(ck: Checker) -> None:
     ck.require(okro and init.has_param("read_only"), "C06.readonly", init, sup[0] if sup else init.node,
                "the read_only constructor argument is forwarded to the object store base class",
                "HashFileDB.__init__ does not forward read_only to ObjectDB: a store opened read-only reports read_only=False and gc accepts it")
+    from . import round10 as _r10
+
+    _r10.local_init_forwards_options(ck, "C06.readonly")
 
     # ---------------------------------------------------------------- used
     # lists handed to removal
